@@ -83,6 +83,33 @@ theorem complete_collapse (i : Nat) (v : Val) (k : Kind) (slots : List Task) :
     simp only [complete, completeList_eq_map]
     rfl
 
+/-- two completion events for different awaitables commute on every task tree -/
+theorem complete_comm_aux (i j : Nat) (a b : Val) (hij : i ≠ j) : ∀ n, ∀ t : Task, sizeOf t ≤ n →
+    complete i a (complete j b t) = complete j b (complete i a t) := by
+  intro n
+  induction n with
+  | zero => intro t h; cases t <;> simp at h
+  | succ n ih =>
+    intro t hs
+    cases t with
+    | ret v => simp [complete]
+    | wait k =>
+      by_cases hki : k = i
+      · subst hki
+        have : k ≠ j := hij
+        simp [complete, this]
+      · by_cases hkj : k = j
+        · subst hkj; simp [complete, hki]
+        · simp [complete, hki, hkj]
+    | gather k slots =>
+      simp only [complete, completeList_eq_map, complete_collapse, List.map_map]
+      congr 1
+      apply List.map_congr_left
+      intro x hx
+      have := List.sizeOf_lt_of_mem hx
+      simp at hs
+      exact ih x (by omega)
+
 /-! ### the state after a set `D` of awaitables has completed -/
 
 mutual
